@@ -17,7 +17,9 @@ def render(items, files_dir=None):
     out = []
     for it in items:
         k = it[0]
-        if k == "plain": out.append("    L%d();" % it[1])
+        if k == "plain":
+            if it[1] % 4 == 1: out.append("    // the headers live in data/*.h (an ordinary remark)")
+            out.append("    L%d();" % it[1])
         elif k == "only": out.append("    L%d(); //only_for_context %s" % (it[1], " ".join(it[2])))
         elif k == "include": out.append("//include_file f%d.h for_context %s" % (it[1], " ".join(it[2])))
         elif k == "open": out.append("//vectorize_over v%d %s" % (it[1], LIMS[it[2]]))
@@ -86,7 +88,7 @@ def text_case(c, workdir):
 # ------------------------------------------------------------------ execution
 def kernel_source(k):
     """k: {blocks: [{var, extra_only: [targets] or None}], same_var: bool}"""
-    lines = ["/*gpukern*/", "void kk(const int n, /*gpuglmem*/ int* log, /*gpuglmem*/ int* marks){"]
+    lines = ["// kernels are kept in src/*.h (an ordinary remark)", "/*gpukern*/", "void kk(const int n, /*gpuglmem*/ int* log, /*gpuglmem*/ int* marks){"]
     lines.append("    marks[0] += 1; //only_for_context cpu_serial cpu_openmp")
     lines.append("    marks[1] += 1; //only_for_context opencl")
     lines.append("    marks[2] += 1; //only_for_context cuda")
@@ -128,10 +130,13 @@ def exec_case(k, workdir):
     res = {}
     # ---- real CPU contexts
     # (an OpenMP context with ONE thread is still an OpenMP context: it must get the cpu_openmp text)
-    for tg, omp in (("cpu_serial", 0), ("cpu_openmp", 2), ("cpu_openmp/1-thread", 1)):
+    for tg, omp in (("cpu_serial", 0), ("cpu_openmp", 2), ("cpu_openmp/1-thread", 1), ("cpu_openmp/set-later", (0, 2)), ("cpu_serial/set-later", (2, 0))):
         r = {}
         try:
-            ctx = xo.ContextCpu(omp_num_threads=omp)
+            if isinstance(omp, tuple):      # the number of threads is changed after the context was made
+                ctx = xo.ContextCpu(omp_num_threads=omp[0]); ctx.omp_num_threads = omp[1]
+            else:
+                ctx = xo.ContextCpu(omp_num_threads=omp)
             ctx.add_kernels(sources=[src], kernels={"kk": xo.Kernel(args=[xo.Arg(xo.Int32, name="n"), xo.Arg(xo.Int32, pointer=True, name="log"),
                                                                            xo.Arg(xo.Int32, pointer=True, name="marks")], n_threads="n")})
             for n in k["ns"]:
